@@ -45,3 +45,14 @@ Example C19_F12a_witness :
   let s := sys_run (sys_init 9 6) [SRegister [] (seqZ_from 1 6); SStatus [] 1; SRegister [] (seqZ_from 7 37)] in
   existsb (fun m => 9 <? zn (length (snd m))) (s_tabs s) = true.
 Proof. vm_compute. reflexivity. Qed.
+
+(* topping a table up later never exceeds the capacity: when SyncState hands players to a table, the table
+   then holds at most floor(players / required tables) <= max players *)
+Theorem C19_sync_top_up_within_capacity :
+  forall st id out t0,
+    find_table id (r_tables (rs_reg st)) = Some t0 -> 0 < r_max (rs_reg st) -> 0 < r_pc (rs_reg st) - out ->
+    let res := sync_state st id out in
+    snd (fst res) <> [] ->
+    forall t1, find_table id (r_tables (rs_reg (fst (fst (fst res))))) = Some t1 -> t_pc t1 <= r_max (rs_reg st).
+Proof. exact sync_topup_within_capacity. Qed.
+Print Assumptions C19_sync_top_up_within_capacity.
